@@ -28,7 +28,7 @@ func init() {
 				"into a clone is read from the original, and the per-type clone and release switches name the same types. R6: " +
 				"the fields of the pooled request information are written only by the rate-limit middleware that owns it.",
 			NotCovered: "equivalence of concurrent and sequential executions over all schedules (the property's quantifier); sync.Pool's own semantics.",
-			Rules: map[string]string{"C07-R20": "the plain forwarder unpacks exactly the bytes of this read (buf[:n]), never the rest of a pooled buffer that still holds an earlier response (shared with C17-R4)", "C07-R19": "rule lists that are shared by all profiles are asked without the requester's device name; only the profile's own custom list gets it (shared with C02-R3)", "C07-R17": "the clone functions of dnsmsg put no object of the source into the clone and return none of the source's objects to the pools", "C07-R18": "every rule list is built with a result cache of its own (shared with C12-R8)", "C07-R16": "UpstreamPlain.Exchange returns a UDP reply only when it passed validation; a failed TCP leg does not revive it (table shared with C17-R4)", "C07-R15": "ecscache.locFromReq builds a fresh location and never returns the GeoIP cache's shared one (shared with C05-R1)", "C07-R14": "slices of a cached urlfilter result are never aliased by a per-request accumulator (shared with C12-R13)", "C07-RC": "class rules (error chains, shadowed results, character classes, crossed arguments, pool constructors, array pools, loop completeness, loop-carried buffers, replacing setters, complete clones, Grow arithmetic, pooled-buffer escape, sorted searches, fresh decode targets, per-iteration objects, whole-message copies, codec guards) over the packages this property rests on", "C07-R13": "ECS cache key is an injective packing (flags in separate bits); filterResponse restores ID and question of the client's own request (shared with C02-R11)", "C07-R12": "a slice converted to an array pointer is pooled only under an exact capacity test (cap == N): windows into a larger buffer would overlap", "C07-R10": "pool constructors (syncutil.NewPool, sync.Pool.New) build every object and buffer anew; nothing captured or global is shared between pooled objects", "C07-R11": "same-typed arguments are not crossed at calls of repository functions (argument names vs parameter names)", "C07-R9": "a pooled upstream connection is closed after any failed exchange (table shared with C17-R4)", "C07-R1": "pooled objects fully re-initialised", "C07-R2": "no use after release", "C07-R3": "dispose gates and order",
+			Rules: map[string]string{"C07-R21": "the rule list compiled from a profile's custom rules has no result cache (rulelist.ResultCacheEmpty): the cache key has neither the device name nor the address, which $client rules look at, so one device's verdict would be served to the profile's other devices", "C07-R22": "address objects obtained from a connection (LocalAddr, RemoteAddr) are shared by every session of that connection and are never written: every store into a field of a net.UDPAddr / net.TCPAddr in netext and bindtodevice goes to an object allocated in the same function", "C07-R20": "the plain forwarder unpacks exactly the bytes of this read (buf[:n]), never the rest of a pooled buffer that still holds an earlier response (shared with C17-R4)", "C07-R19": "rule lists that are shared by all profiles are asked without the requester's device name; only the profile's own custom list gets it (shared with C02-R3)", "C07-R17": "the clone functions of dnsmsg put no object of the source into the clone and return none of the source's objects to the pools", "C07-R18": "every rule list is built with a result cache of its own (shared with C12-R8)", "C07-R16": "UpstreamPlain.Exchange returns a UDP reply only when it passed validation; a failed TCP leg does not revive it (table shared with C17-R4)", "C07-R15": "ecscache.locFromReq builds a fresh location and never returns the GeoIP cache's shared one (shared with C05-R1)", "C07-R14": "slices of a cached urlfilter result are never aliased by a per-request accumulator (shared with C12-R13)", "C07-RC": "class rules (error chains, shadowed results, character classes, crossed arguments, pool constructors, array pools, loop completeness, loop-carried buffers, replacing setters, complete clones, Grow arithmetic, pooled-buffer escape, sorted searches, fresh decode targets, per-iteration objects, whole-message copies, codec guards) over the packages this property rests on", "C07-R13": "ECS cache key is an injective packing (flags in separate bits); filterResponse restores ID and question of the client's own request (shared with C02-R11)", "C07-R12": "a slice converted to an array pointer is pooled only under an exact capacity test (cap == N): windows into a larger buffer would overlap", "C07-R10": "pool constructors (syncutil.NewPool, sync.Pool.New) build every object and buffer anew; nothing captured or global is shared between pooled objects", "C07-R11": "same-typed arguments are not crossed at calls of repository functions (argument names vs parameter names)", "C07-R9": "a pooled upstream connection is closed after any failed exchange (table shared with C17-R4)", "C07-R1": "pooled objects fully re-initialised", "C07-R2": "no use after release", "C07-R3": "dispose gates and order",
 				"C07-R4": "caches clone in and out", "C07-R5": "deep-copy discipline; clone/dispose tables agree", "C07-R6": "who writes RequestInfo",
 				"C07-R8": "pooled receive buffers: no use after Put, no Put by the creator after hand-over to a worker, no Put while a returned object keeps a slice of the buffer (shared with C06-R2)"},
 		}})
@@ -176,10 +176,18 @@ func c07CallerSets(typ, field string) (string, bool) {
 }
 
 func runC07(c *an.Ctx) {
+	// ---- R21: custom rule lists are not result-cached; R22: shared address objects are not written
+	c.Floor("C07-R21", 1)
+	c07CustomListUncached(c, "C07-R21")
+	if n := c07AddrObjectsFresh(c, "C07-R22"); n < 1 && (c.Config.GOOS == "" || c.Config.GOOS == "linux") {
+		c.Und("C07-R22", "stores into address objects", token.NoPos, "no store into a net.UDPAddr / net.TCPAddr field found in netext or bindtodevice")
+	}
 	// ---- R19: shared rule lists are asked without the device name (shared with C02-R3); R20: the forwarder decodes
 	// exactly the bytes it has read (shared with C17-R4)
 	c.Floor("C07-R19", 1)
-	c.Borrow("C07-R19", runC02, func(o an.Obligation) bool { return o.Rule == "C02-R3" && strings.Contains(o.Key, "filterReqWithRuleLists") })
+	c.Borrow("C07-R19", runC02, func(o an.Obligation) bool {
+		return o.Rule == "C02-R3" && strings.Contains(o.Key, "filterReqWithRuleLists")
+	})
 	c.Floor("C07-R20", 1)
 	c.Borrow("C07-R20", runC17, func(o an.Obligation) bool { return o.Rule == "C17-R4" && strings.Contains(o.Key, "readMsg") })
 	classSweep(c, "C07")
@@ -699,4 +707,78 @@ func c07Cloner(c *an.Ctx, rule string) {
 		c.Check(len(diff) == 0, rule, key, fa.Pos(), fmt.Sprintf("both switches name the same %d types", len(a)),
 			"the clone and release switches disagree: "+strings.Join(diff, "; "))
 	}
+}
+
+// c07CustomListUncached: rulelist.ResultCache keys a verdict by host, type and
+// direction only.  A profile's custom rules may carry $client modifiers, which
+// make the verdict depend on the device name and address; a cached verdict of
+// one device would then answer the others.  custom.(*Filters).Get compiles the
+// list with rulelist.ResultCacheEmpty.
+func c07CustomListUncached(c *an.Ctx, rule string) {
+	k := "filter/internal/custom.(*Filters).Get"
+	fn := c.Prog.Fn(k)
+	key := k + " compiles the custom rules without a result cache"
+	if fn == nil {
+		c.Und(rule, key, token.NoPos, "anchor not found")
+		return
+	}
+	c.Analysed(k)
+	n := 0
+	for _, call := range an.Calls(fn) {
+		if !strings.HasSuffix(an.CalleeName(call), "rulelist.NewImmutable") {
+			continue
+		}
+		n++
+		args := call.Common().Args
+		last := args[len(args)-1]
+		typ := ""
+		if mi, ok := last.(*ssa.MakeInterface); ok {
+			typ = mi.X.Type().String()
+		} else {
+			typ = last.Type().String()
+		}
+		c.Check(strings.HasSuffix(typ, "rulelist.ResultCacheEmpty"), rule, key, call.Pos(), "the cache argument is rulelist.ResultCacheEmpty",
+			"the custom rule list is compiled with a result cache of type "+typ+": its key leaves out the device name and address that $client rules depend on, so the first device of a profile to ask decides the verdict for the others")
+	}
+	if n == 0 {
+		c.Und(rule, key, fn.Pos(), "no rulelist.NewImmutable call")
+	}
+}
+
+// c07AddrObjectsFresh: net.Conn.LocalAddr and RemoteAddr return the connection's
+// own address object, the same one for every caller.  A session that needs an
+// address with another IP makes a new object; writing the field of the shared
+// one changes the local address of every request in flight on that socket
+// (dedicated-IP lookups, access checks, the debug record).  Returns the number
+// of stores examined.
+func c07AddrObjectsFresh(c *an.Ctx, rule string) (examined int) {
+	for _, fn := range c.AllFns {
+		k := an.FnKey(fn)
+		if fn.Blocks == nil || c.IsTestFile(fn.Pos()) || !(strings.HasPrefix(k, "dnsserver/netext.") || strings.HasPrefix(k, "bindtodevice.")) {
+			continue
+		}
+		inFn := 0
+		an.Instrs(fn, func(in ssa.Instruction) {
+			st, ok := in.(*ssa.Store)
+			if !ok {
+				return
+			}
+			fa, ok := st.Addr.(*ssa.FieldAddr)
+			if !ok {
+				return
+			}
+			t, f, _, ok := an.FieldOf(fa)
+			if !ok || t != "net.UDPAddr" && t != "net.TCPAddr" {
+				return
+			}
+			examined++
+			inFn++
+			c.Analysed(k)
+			_, fresh := fa.X.(*ssa.Alloc)
+			c.Check(fresh, rule, fmt.Sprintf("%s: store %d into %s.%s goes to an object of its own", k, inFn, t, f), st.Pos(),
+				"the object is allocated in this function",
+				fmt.Sprintf("the field %s.%s is written at %s through a pointer that was not allocated here (%s): if it is the connection's own address object, every session of the socket sees the change", t, f, c.Pos(st.Pos()), fa.X.String()))
+		})
+	}
+	return examined
 }
